@@ -64,6 +64,51 @@ def gen(path):
     print(json.dumps({"runs": runs}))
 
 
+def cachegen(path):
+    """The --cache option: one work directory, the same source FILES; an uncached run, then cached runs that list the
+    sources in another order and in the same order.  sha256 of every generated file per run."""
+    import shutil
+    import tempfile
+    import warnings
+    from pathlib import Path
+
+    from xsdata.codegen.transformer import ResourceTransformer
+    from xsdata.models.config import GeneratorConfig, StructureStyle
+    from xsdata.utils import package as _package
+
+    spec = json.load(open(path))
+    work = tempfile.mkdtemp(prefix="xv-c12c-")
+    cache_dir = tempfile.mkdtemp(prefix="xv-c12t-")
+    tempfile.tempdir = cache_dir            # the cache files live in tempfile.gettempdir()
+    cwd = os.getcwd()
+    runs = []
+    try:
+        os.chdir(work)
+        sys.path.insert(0, work)
+        for name, text in spec["files"].items():
+            Path(work, name).write_text(text, encoding="utf-8")
+        for k, (order, cache) in enumerate(spec["runs"]):
+            _package.package_path.cache_clear()
+            _package.module_path.cache_clear()
+            pkg = "xvc12c"
+            shutil.rmtree(Path(work, pkg), ignore_errors=True)
+            cfg = GeneratorConfig()
+            cfg.output.package = pkg
+            cfg.output.structure_style = StructureStyle(spec["style"])
+            with warnings.catch_warnings():
+                warnings.simplefilter("ignore")
+                try:
+                    ResourceTransformer(config=cfg).process([Path(work, m).as_uri() for m in order], cache=cache)
+                    runs.append({str(p.relative_to(work)): hashlib.sha256(p.read_bytes()).hexdigest() for p in sorted(Path(work, pkg).rglob("*.py"))})
+                except BaseException as ex:  # noqa: BLE001
+                    runs.append({"error": f"{type(ex).__name__}: {ex}"})
+    finally:
+        os.chdir(cwd)
+        shutil.rmtree(work, ignore_errors=True)
+        shutil.rmtree(cache_dir, ignore_errors=True)
+    print(json.dumps({"runs": runs}))
+
+
 NAMES = {"1": "Customer", "2": "Invoice", "3": "Shipment", "4": "Order"}
 
 
@@ -99,6 +144,6 @@ def graphgen(path):
 
 
 if __name__ == "__main__":
-    {"graphs": graphs, "gen": gen, "graphgen": graphgen}[sys.argv[1]](sys.argv[2])
+    {"graphs": graphs, "gen": gen, "graphgen": graphgen, "cachegen": cachegen}[sys.argv[1]](sys.argv[2])
     sys.stdout.flush()
     os._exit(0)
